@@ -34,9 +34,9 @@ def check(v, tier, seed):
     rowf = os.path.join(wd, "rows.ndjson")
     vlib.write_ndjson(rowf, rows)
     obs = os.path.join(wd, "obs.ndjson")
-    cmd = "(%s replay %s %d && %s enum4 %d %d && %s random %d %d 30 && %s random %d %d 400) > %s" % (
+    cmd = "(%s replay %s %d && %s enum4 %d %d && %s random %d %d 30 && %s random %d %d 400 && %s dense %d %d) > %s" % (
         exe, rowf, 8 if quick else 1, exe, seed, 4000 if quick else 60000, exe, seed, 500 if quick else 20000,
-        exe, seed + 1, 40 if quick else 400, obs)
+        exe, seed + 1, 40 if quick else 400, exe, seed + 2, 6000 if quick else 100000, obs)
     rc, out = vlib.run("ulimit -t 150; " + cmd, timeout=3000)
     if rc != 0:
         v.violation({"what": "CornerTable::Create crashed or exceeded its time budget", "rc": rc, "output": out[-1500:]}, tags={"kind": "crash"})
